@@ -16,7 +16,9 @@ def reg(pid, text, note, technique, design_ref=None):
 COMMON_NOTE = (
     "Trusted base: CPython 3.12, the reference model in /verif/vlib/model (plain lists/sets/strings, self-tested "
     "against brute force by ./check --selftest), the world enumerators in /verif/vlib/worlds.py. Bounded: nothing is "
-    "claimed beyond the stated world except via the small-scope argument (DESIGN section 1). "
+    "claimed beyond the stated world except via the small-scope argument (DESIGN section 1); size thresholds are probed by "
+    "the finite scale family where the world description names it (layouts of up to 24/64 blocks, locations beyond 1000 "
+    "blocks, offsets up to 2^40). "
 )
 
 reg(
